@@ -97,4 +97,26 @@ struct Consts {
 };
 static inline const Consts& K() { static Consts k; return k; }
 
+// Digit tuples (c0..c3, each < |x|, value below r) for the random-exponent sampler whose recombination has a carry that must ripple
+// through an all-ones 64-bit limb - the place where a hand-rolled multi-limb accumulation loses it:
+//   k = 0: y - c0 has limb 1 = 2^64-1 and limb 0 + c0 wraps (any evaluation order passes a carry through limb 1 when c0 goes in)
+//   k = 1: the Horner intermediate (c3|x| + c2)|x| has limb 1 = 2^64-1 and limb 0 + c1 wraps
+static inline bool carry_tuple(int k, uint64_t seed, Bn d[4]) {
+    const Bn& X = K().absx; Bn W64 = Bn(1).shl(64), W128 = Bn(1).shl(128), lo = Bn::sub(W128, W64); uint64_t st = seed * 0x9E3779B97F4A7C15ull + 12345;
+    auto rnd = [&]() { st ^= st << 13; st ^= st >> 7; st ^= st << 17; return st; };
+    for (int attempt = 0; attempt < 400; attempt++) {
+        Bn c3 = Bn::mod(Bn(rnd()), Bn::sub(X, Bn(1))), c2 = Bn::mod(Bn(rnd()), X), c1, c0;
+        Bn base = k == 0 ? Bn::mul(Bn::add(Bn::mul(c3, X), c2), Bn::mul(X, X)) : Bn::mul(c3, Bn::mul(X, X));   // what the solved digit is added to (times |x|)
+        Bn t = Bn::mod(base, W128);
+        Bn gap = Bn::cmp(lo, t) >= 0 ? Bn::sub(lo, t) : Bn::sub(Bn::add(lo, W128), t), q, rem; Bn::divmod(gap, X, q, rem);
+        Bn sol = rem.is_zero() ? q : Bn::add(q, Bn(1)); if (!(sol < X)) continue;
+        Bn sum = Bn::mod(Bn::add(t, Bn::mul(sol, X)), W128); if (sum < lo) continue;
+        Bn limb0 = Bn::mod(sum, W64), need = Bn::sub(W64, limb0); if (limb0.is_zero() || !(need < X)) continue;
+        Bn span = Bn::sub(X, need), wrapd = Bn::add(need, Bn::mod(Bn(rnd()), span));
+        if (k == 0) { c1 = sol; c0 = wrapd; } else { c2 = sol; c1 = wrapd; c0 = Bn::mod(Bn(rnd()), X); }
+        d[0] = c0; d[1] = c1; d[2] = c2; d[3] = c3; return true;
+    }
+    return false;
+}
+
 } // namespace jv
